@@ -40,14 +40,18 @@ func (is Instructions) Pass(pass int) bool {
 
 // Assemble the instructions into an Opcode string
 func (is Instructions) Assemble() string {
-	for i := 0; i < 10; i++ {
+	// Instructions only ever grow (see OpArg.Size) so this
+	// terminates: every pass either moves nothing or widens at
+	// least one instruction
+	for i := 0; ; i++ {
 		changed := is.Pass(i)
 		if !changed {
-			goto done
+			break
+		}
+		if i > 2*len(is)+10 {
+			panic("Failed to assemble: positions did not settle")
 		}
 	}
-	panic("Failed to assemble after 10 passes")
-done:
 	out := make([]byte, 0, 3*len(is))
 	for _, i := range is {
 		out = append(out, i.Output()...)
@@ -373,23 +377,29 @@ func (o *Op) StackEffect() int {
 // An opcode with argument
 type OpArg struct {
 	pos
-	Op  vm.OpCode
-	Arg uint32
+	Op   vm.OpCode
+	Arg  uint32
+	wide bool // needs (or once needed) an EXTENDED_ARG prefix
 }
 
-// Uses 1 byte in the output stream
+// Uses 3 bytes in the output stream, or 6 with an EXTENDED_ARG prefix
+//
+// Once an instruction has needed the prefix it keeps it, so that
+// sizes never shrink while jump arguments are being resolved
 func (o *OpArg) Size() uint32 {
-	if o.Arg <= 0xFFFF {
-		return 3 // Op Arg1 Arg2
-	} else {
-		return 6 // Extend Arg1 Arg2 Op Arg3 Arg4
+	if o.Arg > 0xFFFF {
+		o.wide = true
 	}
+	if !o.wide {
+		return 3 // Op Arg1 Arg2
+	}
+	return 6 // Extend Arg1 Arg2 Op Arg3 Arg4
 }
 
 // Output
 func (o *OpArg) Output() []byte {
 	out := []byte{byte(o.Op), byte(o.Arg), byte(o.Arg >> 8)}
-	if o.Arg > 0xFFFF {
+	if o.Size() == 6 {
 		out = append([]byte{byte(vm.EXTENDED_ARG), byte(o.Arg >> 16), byte(o.Arg >> 24)}, out...)
 	}
 	return out
@@ -441,18 +451,16 @@ type JumpRel struct {
 
 // Set the Arg from the Jump Label
 func (o *JumpRel) Resolve() {
-	currentSize := o.Size()
-	currentPos := o.Pos() + currentSize
+	currentPos := o.Pos() + o.Size()
 	if o.Dest.Pos() < currentPos {
-		panic("JUMP_FORWARD can't jump backwards")
+		// The destination has not been moved along yet in
+		// this pass (an instruction in between has just been
+		// widened) - a later pass resolves it
+		return
 	}
+	// If this widens the instruction everything after it moves
+	// and another pass is made
 	o.OpArg.Arg = o.Dest.Pos() - currentPos
-	if o.Size() != currentSize {
-		// FIXME There is an awkward moment where jump forwards is
-		// between 0x1000 and 0x1002 where the Arg oscillates
-		// between 2 and 4 bytes
-		panic("FIXME compile: JUMP_FOWARDS size changed")
-	}
 }
 
 // Creates the lnotab from the instruction stream
